@@ -479,12 +479,69 @@ CORPUS_T4_BIG = [
 ]
 
 
+# ------------------------------------------------------------------------------ repairs of other properties
+# The models follow the C08 repairs fixes/c08-04..10 (behaviour on tags that are NOT well-formed).  As long as
+# a repair is not in the tree under test, the old behaviour on exactly that input class is tolerated in the
+# correspondence (it is C08's finding, not a disagreement about C01-C03).  Whether a repair is present is
+# decided by one canonical probe of the real code per class; with the repair present the class is compared
+# like everything else.
+def detect_pending():
+    pend = set()
+    body = bytes(range(256)) + bytes(64)
+
+    def t3(**kw):
+        cfg = dict(ver=0x10, nbr=4, nbw=3, nmaxb=5, writef=0, rwflag=1, rw=True, maxr=15, maxw=13, ln=16, body=body.hex())
+        cfg.update(kw)
+        return observe(T3Session(t3_make(cfg)).activate())[0]
+    if t3(nbr=0) != 'none':
+        pend.add('t3-nbr0')
+    if t3(ln=16 * 5 + 16) != 'none':
+        pend.add('t3-ln')
+    if t3(nbr=16, nmaxb=19, ln=16 * 16).startswith('none'):
+        pend.add('t3-nbrcap')
+
+    def t4(mfs, phys, nlen):
+        f = bytearray(b'\x33' * phys)
+        f[:2] = nlen.to_bytes(2, 'big')
+        cfg = dict(mapping=2, mle=59, mlc=52, mfs=mfs, rf=0, wf=0, fid='e104', v2=True, v1=False, file=bytes(f).hex())
+        return observe(T4Session(t4_make(cfg)).activate())[0]
+    if t4(32, 64, 40) != 'none':
+        pend.add('t4-nlen')
+    if t4(64, 32, 40) != 'none':
+        pend.add('t4-nodata')
+    return pend
+
+
+def pending_classes(kind, cfg):
+    c = set()
+    if kind in ('t3', 'emu'):
+        if cfg['nbr'] == 0:
+            c.add('t3-nbr0')
+        if cfg['nbr'] > 15:
+            c.add('t3-nbrcap')
+        if cfg['ln'] > 16 * cfg['nmaxb']:
+            c.add('t3-ln')
+    else:
+        ns = t4_nlen(cfg)
+        f = bytes.fromhex(cfg['file'])
+        cap = min(cfg['mfs'], 65536) - ns
+        if len(f) >= ns and int.from_bytes(f[:ns], 'big') > cap:
+            c |= {'t4-nlen', 't4-nodata'}
+        if len(f) < cfg['mfs']:
+            c.add('t4-nodata')
+    return c
+
+
 class Batch(object):
     """collect model lines and the implementation's lines, compare at the end"""
 
     def __init__(self, ck, mr):
         self.ck, self.mr = ck, mr
         self.lines, self.impl, self.meta = [], [], []
+        self.pending = detect_pending()
+        if self.pending:
+            ck.notes.append('blk: repairs not in the tree under test, old behaviour tolerated on these input classes: ' +
+                            ', '.join(sorted(self.pending)))
 
     def add(self, mline, iline, meta):
         self.lines.append(mline)
@@ -498,13 +555,17 @@ class Batch(object):
         nmis = 0
         for ml, il, meta, got in zip(self.lines, self.impl, self.meta, out):
             if got != il:
+                tol = self.pending & pending_classes(meta['kind'], meta['fullcfg'])
+                if tol:
+                    self.ck.count('blk-tolerated-' + '+'.join(sorted(tol)))
+                    continue
                 nmis += 1
                 if nmis <= 3:
                     gi, ii = got.split(' | '), il.split(' | ')
                     diff = [j for j in range(max(len(gi), len(ii))) if (gi[j:j + 1] != ii[j:j + 1])]
                     j = diff[0] if diff else 0
                     self.ck.correspondence_mismatch('blk-' + meta['kind'], dict(
-                        meta, field=j, impl=(ii[j] if j < len(ii) else '')[:300], model=(gi[j] if j < len(gi) else '')[:300]))
+                        {k: v for k, v in meta.items() if k != 'fullcfg'}, field=j, impl=(ii[j] if j < len(ii) else '')[:300], model=(gi[j] if j < len(gi) else '')[:300]))
         self.ck.cov['traces_validated_against_impl'] = self.ck.cov.get('traces_validated_against_impl', 0) + len(self.lines) - nmis
         self.lines, self.impl, self.meta = [], [], []
 
@@ -521,7 +582,7 @@ def run_case(ck, pid, batch, kind, cfg, data):
         wf = t4_wellformed(cfg)
         room = len(cfg['file']) // 2 - t4_nlen(cfg)
     meta = dict(kind=kind, cfg={k: (v if k not in ('body', 'file') or len(v) <= 128 else v[:128] + '...') for k, v in cfg.items()},
-                data=hx(data)[:128], datalen=len(data), wellformed=wf)
+                data=hx(data)[:128], datalen=len(data), wellformed=wf, fullcfg=cfg)
     if pid == 'C02':
         if kind == 't4' and cfg['mlc'] < t4_nlen(cfg):
             wf = False                       # NLEN cannot be written in one command: outside the property's reach
@@ -559,7 +620,8 @@ def run_case(ck, pid, batch, kind, cfg, data):
 
 def run_format(ck, batch, cfg, wipe):
     iline, d = t4_real(cfg, 'format', wipe, -1)
-    meta = dict(kind='t4', cfg={k: (v if k != 'file' or len(v) <= 128 else v[:128] + '...') for k, v in cfg.items()}, format=True, wipe=wipe)
+    meta = dict(kind='t4', cfg={k: (v if k != 'file' or len(v) <= 128 else v[:128] + '...') for k, v in cfg.items()}, format=True, wipe=wipe,
+                fullcfg=cfg)
     batch.add(t4_model_line(cfg, 'format', wipe, -1), iline, meta)
     ck.case(('t4fmt', json.dumps(cfg, sort_keys=True), wipe), t4_wellformed(cfg) and wipe is not None,
             dict(kind='t4-format', cfg=meta['cfg'], wipe=wipe))
